@@ -2,6 +2,23 @@ import gfapy
 
 class Validation:
 
+  def _validate_record_type_specific_info(self):
+    "Checks that begin <= end and that $ is used consistently"
+    for pfx in ["s", "f"]:
+      begpos = self.get(pfx+"_beg")
+      endpos = self.get(pfx+"_end")
+      if gfapy.posvalue(begpos) > gfapy.posvalue(endpos):
+        raise gfapy.ValueError(
+          "Line: {}\n".format(str(self))+
+          "begin > end: {} > {}".format(gfapy.posvalue(begpos),
+                                        gfapy.posvalue(endpos)))
+      if gfapy.islastpos(begpos) and not gfapy.islastpos(endpos):
+        raise gfapy.FormatError(
+          "Line: {}\n".format(str(self))+
+          "Wrong use of $ marker\n"+
+          "{} >= {}$".format(gfapy.posvalue(endpos),
+                             gfapy.posvalue(begpos)))
+
   def validate_positions(self):
     "Checks that positions suffixed by $ are the last position of segments"
     if self.is_connected():
